@@ -88,6 +88,14 @@ theorem clear_is_exempt :
   | nil => exact hne rfl
   | cons a as => simp at hl
 
+/-- what the clear operation does when it succeeds (it always does): zero components, and in profile 1 no
+    "no measurements" assertion either; every other claim as before (`set_frame`) -/
+theorem clear_leaves_nothing (c : Claims) :
+    (applySet c (.sw (some []))).2 = .ok () ∧ (applySet c (.sw (some []))).1.sw.elems = [] ∧
+    (c.prof = .p1 → (applySet c (.sw (some []))).1.noSw = none) := by
+  obtain ⟨prof, canonical, profile, clientId, lifecycle, implId, bootSeed, certRef, sw, noSw, nonce, instId, vsi⟩ := c
+  cases prof <;> cases sw <;> simp [applySet, replaceVals, validateAndConvert, Outcome.bind, SwField.elems]
+
 /-- the repaired case: profile 2 refuses the nil list and leaves the claims-set as it was -/
 theorem p2_nil_components_refused (c : Claims) (hp : c.prof = .p2) :
     (applySet c (.sw none)).2 = .err eWrongSyntax ∧ (applySet c (.sw none)).1 = c := by
